@@ -209,3 +209,10 @@ Theorem C16_whitened_eig_is_real_power : forall (lam d : R) (a b : nat), (0 < la
   (d ^ (2 * b) * lam ^ (b - a) = 1)%R -> (d * d * lam)%R = Rpower lam (INR a / INR b).
 Proof. exact whitened_eig_is_real_power. Qed.
 Print Assumptions C16_whitened_eig_is_real_power.
+
+(* the functions of this property whose Gallina counterpart is hand-written (or that only the oracles reach) still read, statement by statement, as they did when
+   the model was last validated against them (Gen/T9text.v regenerated from the source on every run; Proofs/Text_C16.v holds the validated text) *)
+From XV Require Gen.T9text Proofs.Text_C16.
+Theorem C16_hand_modelled_functions_read_as_validated : Text_C16.all_frozen.
+Proof. exact Text_C16.all_frozen_holds. Qed.
+Print Assumptions C16_hand_modelled_functions_read_as_validated.
